@@ -130,9 +130,9 @@ def setup():
 
 def cacheseq_runs(tier, seed):
     if tier == "quick":
-        mc_cfg, gen_cfgs, nsim, simdepth = "CacheSeq_mc_quick.cfg", ["CacheSeq_q0.cfg", "CacheSeq_t2.cfg", "CacheSeq_q3.cfg"], 250, 9
+        mc_cfg, gen_cfgs, nsim, simdepth = "CacheSeq_mc_quick.cfg", ["CacheSeq_q0.cfg", "CacheSeq_t2.cfg", "CacheSeq_q3.cfg", "CacheSeq_inj.cfg"], 250, 9
     else:
-        mc_cfg, gen_cfgs, nsim, simdepth = "CacheSeq_mc_thorough.cfg", ["CacheSeq_q0.cfg", "CacheSeq_t0.cfg", "CacheSeq_t1.cfg", "CacheSeq_t2.cfg", "CacheSeq_q3.cfg"], 1500, 13
+        mc_cfg, gen_cfgs, nsim, simdepth = "CacheSeq_mc_thorough.cfg", ["CacheSeq_q0.cfg", "CacheSeq_t0.cfg", "CacheSeq_t1.cfg", "CacheSeq_t2.cfg", "CacheSeq_q3.cfg", "CacheSeq_inj.cfg", "CacheSeq_injT.cfg"], 1500, 13
     thunks = [lambda: run_tlc("MCCacheSeq", mc_cfg, deadlock=True, timeout=3000, workers=8)]
     for g in gen_cfgs:
         thunks.append(lambda g=g: run_tlc("MCCacheSeq", g, deadlock=True, timeout=3000, workers=4))
@@ -213,3 +213,108 @@ def selftest():
     print("selftest replay with corrupted expectation -> mismatch reported: %s" % good)
     ok &= good
     return 0 if ok else 1
+
+
+# ---------------------------------------------------------------------------------------
+# family: edits (C02 C03 C14) - spec/Edits.tla EditsApply.tla EditsInject.tla
+
+def generic_replay(prop, tier, seed, runs, sub, level, rule, assumptions, mc_index=0, extra_cov=None):
+    """runs: list of (module, cfg, kwargs) TLC runs; all rows are replayed with harness `sub`.
+    The run at mc_index provides the states/transitions figures."""
+    vlib.build_harness()
+    rs = parallel(*[(lambda m=m, c=c, kw=kw: run_tlc(m, c, deadlock=True, timeout=3000, **kw)) for (m, c, kw) in runs])
+    for r, (m, c, kw) in zip(rs, runs):
+        model_must_hold(r, c)
+    rows = [row for r in rs for row in r.rows]
+    if not rows:
+        raise ToolFailure("vacuous: TLC emitted no case")
+    f = scratch_file("%s.ndjson" % sub)
+    write_rows(rows, f)
+    try:
+        res, err = run_harness(sub, ["-cases", f, "-seed", seed])
+    finally:
+        os.unlink(f)
+    tool_errors(res["mismatches"])
+    mine = tagged(res["mismatches"], prop)
+    states = sum(r.distinct for r in rs)
+    trans = sum(r.generated for r in rs)
+    cov = {"states": max(states, 1), "transitions": max(trans, 1),
+           "traces_validated_against_impl": res["evaluations"],
+           "evaluations": res["evaluations"], "distinct_nontrivial": res["distinct_nontrivial"],
+           "steps_replayed": res["steps"], "rule": rule,
+           "exhaustive": all("simulate" not in kw for (_, _, kw) in runs),
+           "samples": [rows[len(rows) // 3]],
+           "tlc_runs": [{"module": m, "cfg": c, "mode": "simulate" if "simulate" in kw else "exhaustive",
+                         "distinct_states": r.distinct, "generated": r.generated, "rows": len(r.rows), "wall_s": round(r.wall, 1)}
+                        for r, (m, c, kw) in zip(rs, runs)],
+           "checker_cmd": "tlc " + " ; tlc ".join("%s -config %s" % (m, c) for (m, c, kw) in runs) + " ; harness " + sub}
+    if extra_cov:
+        cov.update(extra_cov)
+    return {"level": level, "coverage": cov, "mismatches": mine, "replay_with": sub, "assumptions": assumptions,
+            "all_mismatches": res["mismatches"]}
+
+
+EDITS_ASSUME = ["the oracle Apply/Compose (spec/Edits.tla) is a transcription of SPEC.md and the property statement; its own invariants "
+                "EnvOK/NodesOK/MountsOK/RestOK/OriginsOK are checked by TLC in the same run",
+                "env is compared as the effective map (last entry for a name wins); device nodes as a set keyed by path; "
+                "additional GIDs as prefix + set; cgroup rules, mounts and hooks as exact sequences; everything else by digest",
+                "host device nodes are real nodes made with mknod in a scratch directory (needs root)"]
+
+
+@check("C03")
+def c03(prop, tier, seed):
+    if tier == "quick":
+        runs = [("MCEdits", "Edits_quick.cfg", {}),
+                ("MCEdits", "Edits_sim.cfg", dict(simulate="num=150", depth=8, seed=seed, workers=4))]
+    else:
+        runs = [("MCEdits", "Edits_thorough.cfg", {}),
+                ("MCEdits", "Edits_sim.cfg", dict(simulate="num=6000", depth=8, seed=seed, workers=8))]
+    return generic_replay(prop, tier, seed, runs, "replay-edits", "model_checking",
+                          "every edit list of <=2 (quick) / <=3 (thorough) atomic edits from a universe of 31 atoms x 6 initial OCI specs x 3 host "
+                          "device tables (exhaustive), plus seeded random lists of 7 atoms; each row carries Apply's expected result and is run "
+                          "through ContainerEdits.Apply and, for a seeded share, Device.ApplyEdits / Spec.ApplyEdits of a Spec file holding the edits. "
+                          "non-trivial = at least one atom", EDITS_ASSUME)
+
+
+@check("C02")
+def c02(prop, tier, seed):
+    if tier == "quick":
+        runs = [("MCInject", "Inject_quick.cfg", {}), ("MCInject", "Inject_c14_quick.cfg", {}),
+                ("MCInject", "Inject_sim.cfg", dict(simulate="num=20", depth=7, seed=seed, workers=4))]
+    else:
+        runs = [("MCInject", "Inject_thorough.cfg", {}), ("MCInject", "Inject_c14_quick.cfg", {}),
+                ("MCInject", "Inject_sim.cfg", dict(simulate="num=400", depth=7, seed=seed, workers=8))]
+    return generic_replay(prop, tier, seed, runs, "replay-inject", "model_checking",
+                          "32 cache populations (5 Spec files present/absent: two files of one kind, a shadowing file, a second vendor, a "
+                          "same-directory conflict) x every ordered selection of <=3 (quick) / <=4 distinct resolvable devices x 2 initial OCI "
+                          "specs, exhaustive; expected = Apply(oci, Compose(request)) with resolution by the precedence rule; plus seeded random "
+                          "histories of 6 injections. non-trivial = request of >= 2 devices", EDITS_ASSUME)
+
+
+@check("C14")
+def c14(prop, tier, seed):
+    if tier == "quick":
+        runs = [("MCInject", "Inject_c14_quick.cfg", {}),
+                ("MCEdits", "Edits_quick.cfg", {})]
+        subs = ["replay-inject", "replay-edits"]
+    else:
+        runs = [("MCInject", "Inject_c14_quick.cfg", {}),
+                ("MCInject", "Inject_sim.cfg", dict(simulate="num=800", depth=7, seed=seed, workers=8)),
+                ("MCEdits", "Edits_thorough.cfg", {})]
+        subs = ["replay-inject", "replay-inject", "replay-edits"]
+    outs = []
+    # two harness sub-commands: histories through the cache, and direct Apply on edit structs
+    a = generic_replay(prop, tier, seed, [r for r, s in zip(runs, subs) if s == "replay-inject"], "replay-inject", "model_checking",
+                       "histories inject / change host nodes / inject (exhaustive over 3 populations, requests of <=2 devices, 3 host tables; "
+                       "thorough adds random histories of 6 steps): after every step the JSON image of every cached Spec and device must be "
+                       "unchanged, every injection must equal the model's result for the *current* host table, and every cached Spec must be "
+                       "writable again at the end; plus every C03 row: Apply must leave the edits it was given untouched. non-trivial = request of >= 2 devices / >= 1 atom",
+                       EDITS_ASSUME)
+    b = generic_replay(prop, tier, seed, [r for r, s in zip(runs, subs) if s == "replay-edits"], "replay-edits", "model_checking", "", EDITS_ASSUME)
+    a["mismatches"] += b["mismatches"]
+    ca, cb = a["coverage"], b["coverage"]
+    for k in ("states", "transitions", "traces_validated_against_impl", "evaluations", "distinct_nontrivial", "steps_replayed"):
+        ca[k] += cb[k]
+    ca["tlc_runs"] += cb["tlc_runs"]
+    ca["checker_cmd"] += " ; " + cb["checker_cmd"]
+    return a
